@@ -89,6 +89,16 @@ def streams(rng, tier):
     for cp in (0x212A, 0x130, 0x17F, 0xB2, 0x661, 0xFF21, 0xFF41, 0x1D7CF, 0x1F600, 0x10400):
         for pat in ("{}", "{}{}", "1{}", "{}_", "a{}__2", "{}__{}"):
             san.append({"op": "san", "name": S(pat.format(chr(cp), chr(cp)))})
+    # the sanitiser only sees character CLASSES (lower, upper, digit, underscore, other): every string over
+    # one representative per class up to length 4 (quick) / 6 (thorough), so that every order of the rules
+    # (lower-case, collapse, strip, digit prefix, reserved suffix) is exercised on every small shape
+    reps = "aZ1_# "
+    for ln in range(1, 5 if quick else 7):
+        for tup in itertools.product(reps, repeat=ln):
+            san.append({"op": "san", "name": S("".join(tup))})
+    if quick:
+        for _ in range(1500):
+            san.append({"op": "san", "name": S("".join(rng.choice(reps) for _ in range(rng.randint(5, 8))))})
     out.append(("sanitize", san))
 
     dup = []
